@@ -31,6 +31,7 @@
 static PStructElem          pLabelElement;
 static struct sSymbolEntry* pLabelEntry;
 static LargeWord            LabelValue;
+static LargeInt             LabelEntryBias; /* symbol value minus label value (struct elements) */
 
 /* ------------------------------------------------------------------------
  * Global Functions
@@ -42,8 +43,9 @@ static LargeWord            LabelValue;
  * ------------------------------------------------------------------------ */
 
 void LabelReset(void) {
-    pLabelElement = NULL;
-    pLabelEntry   = NULL;
+    pLabelElement  = NULL;
+    pLabelEntry    = NULL;
+    LabelEntryBias = 0;
     LabelValue    = (LargeWord)-1;
 }
 
@@ -96,8 +98,9 @@ Boolean LabelPresent(void) {
  * ------------------------------------------------------------------------ */
 
 void LabelHandle(tStrComp const* pName, LargeWord Value, Boolean ForceGlobal) {
-    pLabelElement = NULL;
-    pLabelEntry   = NULL;
+    pLabelElement  = NULL;
+    pLabelEntry    = NULL;
+    LabelEntryBias = 0;
 
     /* structure element ? */
 
@@ -120,7 +123,17 @@ void LabelHandle(tStrComp const* pName, LargeWord Value, Boolean ForceGlobal) {
         }
         pLabelElement->Offset = Offset;
         if (AddStructElem(pInnermostNamedStruct->StructRec, pLabelElement)) {
-            AddStructSymbol(pLabelElement->pElemName, Value);
+            /* remember the symbol holding the element's offset, so it moves along with the
+               element if a pad byte is inserted in front of the element */
+
+            pLabelEntry = AddStructSymbol(pLabelElement->pElemName, Value);
+
+            /* the symbol's value is the offset from the outermost struct's start, see
+               AddStructSymbol(): */
+
+            for (pRun = StructStack; pRun->Next; pRun = pRun->Next) {
+                LabelEntryBias += pRun->SaveCurrPC;
+            }
         }
     }
 
@@ -159,7 +172,7 @@ void LabelModify(LargeWord OldValue, LargeWord NewValue) {
             pLabelElement->Offset += NewValue - OldValue;
         }
         if (pLabelEntry) {
-            ChangeSymbol(pLabelEntry, NewValue);
+            ChangeSymbol(pLabelEntry, NewValue + LabelEntryBias);
         }
         LabelValue = NewValue;
     }
